@@ -348,6 +348,9 @@ func (b Builder) Slice(x, low, high, max Expr) (ret Expr) {
 		telem := t.Elem()
 		switch te := telem.Underlying().(type) {
 		case *types.Array:
+			// slicing a *array dereferences it: a nil pointer must panic here,
+			// not yield a slice with a nil base
+			b.AssertNilDeref(x)
 			elem := prog.rawType(te.Elem())
 			ret.Type = prog.Slice(elem)
 			nEltSize = SizeOf(prog, elem)
